@@ -1,7 +1,265 @@
 package main
 
-// Replay of verifier counterexamples on the real code (go test -overlay; nothing is written into /repo).
+// Replay of verifier counterexamples on the real code. The model's inputs are fed to the real function through a
+// generated in-package test injected with `go test -overlay` (nothing is written into /repo); the outputs are read
+// back and the violated clause is evaluated on the concrete input/output pair (by the same SMT translation, with all
+// inputs and outputs fixed to constants). Supported: plain functions whose parameters are integers, booleans and byte
+// slices and whose results are integers, booleans and errors, for postcondition clauses free of ghost functions.
+
+import (
+	"encoding/json"
+	"fmt"
+	"go/types"
+	"os"
+	"os/exec"
+	"path/filepath"
+	"sort"
+	"strings"
+	"time"
+
+	"golang.org/x/tools/go/ssa"
+)
 
 func replayObligation(e *Engine, fr *FnResult, o *Obligation, rep map[string]any, verifDir string) (bool, string) {
-	return false, ""
+	if o.Inputs == nil || o.Kind != "post" {
+		return false, ""
+	}
+	var fn *ssa.Function
+	for k, f := range e.Funcs {
+		if shortFn(k) == fr.Func {
+			fn = f
+		}
+	}
+	if fn == nil || fn.Signature.Recv() != nil || fn.Pkg == nil || fn.Parent() != nil {
+		return false, "replay: only plain package-level functions are replayed automatically"
+	}
+	con := e.CS.Funcs[fn.String()]
+	if con == nil {
+		return false, ""
+	}
+	var clause *Clause
+	for _, c := range con.Ensures {
+		if fx0name(fn, c) == o.Name {
+			clause = c
+		}
+	}
+	if clause == nil {
+		return false, "replay: clause not found"
+	}
+	// build the call
+	var args []string
+	type pin struct {
+		name string
+		t    types.Type
+		ival string
+		bval []int
+	}
+	var pins []pin
+	for _, p := range fn.Params {
+		switch {
+		case isIntegerT(p.Type()):
+			v, ok := o.Inputs.Scalars[p.Name()]
+			if !ok {
+				return false, "replay: model has no value for " + p.Name()
+			}
+			n, okn := isNum(v)
+			if !okn {
+				return false, "replay: non-numeric model value"
+			}
+			args = append(args, fmt.Sprintf("%s(%s)", types.TypeString(p.Type(), types.RelativeTo(fn.Pkg.Pkg)), n.String()))
+			pins = append(pins, pin{name: p.Name(), t: p.Type(), ival: num(n)})
+		case kindOf(p.Type()) == KBool:
+			v := o.Inputs.Scalars[p.Name()]
+			args = append(args, v)
+			pins = append(pins, pin{name: p.Name(), t: p.Type(), ival: v})
+		case kindOf(p.Type()) == KSlice && typeKey(p.Type().Underlying().(*types.Slice).Elem()) == "uint8":
+			bs, ok := o.Inputs.Bytes[p.Name()]
+			if !ok || len(bs) > 70000 {
+				return false, "replay: no byte contents in the model for " + p.Name()
+			}
+			var xs []string
+			for _, b := range bs {
+				xs = append(xs, fmt.Sprint(b))
+			}
+			lit := "[]byte{" + strings.Join(xs, ",") + "}"
+			if ln, ok := isNum(o.Inputs.Scalars[p.Name()+".l"]); ok && ln.Sign() == 0 && o.Inputs.Scalars[p.Name()+".b"] == "0" {
+				lit = "[]byte(nil)"
+			}
+			args = append(args, lit)
+			pins = append(pins, pin{name: p.Name(), t: p.Type(), bval: bs})
+		default:
+			return false, "replay: parameter type " + p.Type().String() + " not supported"
+		}
+	}
+	res := fn.Signature.Results()
+	var lhs []string
+	var dump []string
+	var sentinels []string
+	for name := range e.Sentinels {
+		if strings.HasPrefix(name, fn.Pkg.Pkg.Path()+".") {
+			sentinels = append(sentinels, strings.TrimPrefix(name, fn.Pkg.Pkg.Path()+"."))
+		}
+	}
+	sort.Strings(sentinels)
+	for i := 0; i < res.Len(); i++ {
+		lhs = append(lhs, fmt.Sprintf("r%d", i))
+		rt := res.At(i).Type()
+		switch {
+		case isErrorType(rt):
+			dump = append(dump, fmt.Sprintf(`out["res%d"] = zzErrName(r%d)`, i, i))
+		case isIntegerT(rt), kindOf(rt) == KBool:
+			dump = append(dump, fmt.Sprintf(`out["res%d"] = r%d`, i, i))
+		default:
+			return false, "replay: result type " + rt.String() + " not supported"
+		}
+	}
+	var cases []string
+	for _, s := range sentinels {
+		cases = append(cases, fmt.Sprintf("\tif err == %s {\n\t\treturn %q\n\t}\n", s, s))
+	}
+	tmp, err := os.MkdirTemp("", "turnvc-replay-")
+	if err != nil {
+		return false, err.Error()
+	}
+	defer os.RemoveAll(tmp)
+	outFile := filepath.Join(tmp, "out.json")
+	src := fmt.Sprintf(`package %s
+
+import (
+	"encoding/json"
+	"os"
+	"testing"
+)
+
+func zzErrName(err error) string {
+	if err == nil {
+		return "nil"
+	}
+%s	return "other"
+}
+
+func TestZZTurnvcReplay(t *testing.T) {
+	%s := %s(%s)
+	out := map[string]any{}
+	%s
+	b, _ := json.Marshal(out)
+	_ = os.WriteFile(%q, b, 0o644)
+}
+`, fn.Pkg.Pkg.Name(), strings.Join(cases, ""), strings.Join(lhs, ", "), fn.Name(), strings.Join(args, ", "), strings.Join(dump, "\n\t"), outFile)
+	if res.Len() == 0 {
+		return false, "replay: function has no results"
+	}
+	pkgDir := e.RepoDir
+	if rel := strings.TrimPrefix(fn.Pkg.Pkg.Path(), modulePath); rel != "" {
+		pkgDir = filepath.Join(e.RepoDir, rel)
+	}
+	testFile := filepath.Join(tmp, "zz_turnvc_replay_test.go")
+	os.WriteFile(testFile, []byte(src), 0o644)
+	ov := map[string]any{"Replace": map[string]string{filepath.Join(pkgDir, "zz_turnvc_replay_test.go"): testFile}}
+	ovb, _ := json.Marshal(ov)
+	ovFile := filepath.Join(tmp, "overlay.json")
+	os.WriteFile(ovFile, ovb, 0o644)
+	cmd := exec.Command("bash", "-c", fmt.Sprintf("ulimit -v 4000000; cd %s && go test -overlay %s -vet=off -count=1 -timeout 60s -run '^TestZZTurnvcReplay$' .", pkgDir, ovFile))
+	cmd.Env = append(os.Environ(), "GOFLAGS=-mod=mod", "GOPROXY=off")
+	done := make(chan struct{})
+	var outb []byte
+	go func() { outb, _ = cmd.CombinedOutput(); close(done) }()
+	select {
+	case <-done:
+	case <-time.After(120 * time.Second):
+		if cmd.Process != nil {
+			cmd.Process.Kill()
+		}
+		rep["replay_hung"] = true
+		rep["replay_test_source"] = src
+		return true, "the real function did not return within 120 s on the model's inputs (non-termination reproduced)"
+	}
+	rep["replay_test_source"] = src
+	rep["replay_go_test_output"] = firstLines(string(outb), 12)
+	data, err := os.ReadFile(outFile)
+	if err != nil {
+		if strings.Contains(string(outb), "panic:") {
+			return true, "the real function panicked on the model's inputs: " + firstLines(string(outb), 6)
+		}
+		return false, "replay: the generated test did not produce outputs: " + firstLines(string(outb), 4)
+	}
+	var outs map[string]any
+	json.Unmarshal(data, &outs)
+	rep["replay_outputs"] = outs
+	// evaluate the clause on the concrete pair
+	fx := &FnCtx{eng: e, fn: fn, con: con, obls: map[string]*Obligation{}, heapSorts: map[string]string{}, unsup: map[string]bool{}, notes: map[string]bool{},
+		params: map[string]*Val{}, keySorts: map[string]string{}, locksTouched: map[string]bool{}, covers: map[string]bool{}, exercised: map[*AtCall]bool{}, loops: map[*ssa.BasicBlock]*loopInfo{}}
+	fx.sol = NewSolver(10000)
+	defer fx.sol.Close()
+	st := &State{fx: fx, env: map[ssa.Value]*Val{}, locs: map[ssa.Value]*Loc{}, heap: map[string]string{}, kep: map[string]int{}}
+	fx.sol.DeclareConst("top0", "Int")
+	fx.sol.Assert("(= top0 16384)")
+	st.allocTop, st.top0 = "top0", "top0"
+	base := 100
+	for _, p := range pins {
+		if p.bval != nil {
+			base++
+			v := &Val{K: KSlice, T: p.t, B: fmt.Sprint(base), O: "0", L: fmt.Sprint(len(p.bval)), C: fmt.Sprint(len(p.bval))}
+			if len(p.bval) == 0 {
+				v.B = "0"
+			}
+			m := st.heapGet("M|uint8|", "(Array Int (Array Int Int))")
+			for i, b := range p.bval {
+				fx.sol.Assert(tEq(tSel(tSel(m, v.B), fmt.Sprint(i)), fmt.Sprint(b)))
+			}
+			fx.params[p.name] = v
+		} else if kindOf(p.t) == KBool {
+			fx.params[p.name] = mkBool(p.ival)
+		} else {
+			fx.params[p.name] = mkInt(p.ival, p.t)
+		}
+	}
+	fx.entry = st.snapshot()
+	env := fx.fnEnv(st, point{nil, 0})
+	env.useLocals = false
+	var rvals []*Val
+	for i := 0; i < res.Len(); i++ {
+		rt := res.At(i).Type()
+		x := outs[fmt.Sprintf("res%d", i)]
+		switch {
+		case isErrorType(rt):
+			s, _ := x.(string)
+			switch s {
+			case "nil":
+				rvals = append(rvals, mkInt("0", rt))
+			case "other":
+				rvals = append(rvals, mkInt("9999", rt))
+			default:
+				rvals = append(rvals, mkInt(fmt.Sprint(e.Sentinels[fn.Pkg.Pkg.Path()+"."+s]), rt))
+			}
+		case kindOf(rt) == KBool:
+			b, _ := x.(bool)
+			rvals = append(rvals, mkBool(fmt.Sprint(b)))
+		default:
+			f, _ := x.(float64)
+			rvals = append(rvals, mkInt(numI(int64(f)), rt))
+		}
+	}
+	var rv *Val
+	if len(rvals) == 1 {
+		rv = rvals[0]
+	} else {
+		rv = &Val{K: KTuple, T: res, Fs: rvals}
+	}
+	bindResults(env, fn.Signature, rv)
+	goal := env.evalBool(clause.E)
+	if len(fx.unsup) > 0 || strings.Contains(goal, "(g_") {
+		return false, "replay: clause mentions ghost functions or unsupported terms; outputs recorded but not judged"
+	}
+	r := fx.sol.CheckNeg(goal, nil)
+	rep["replay_clause_on_concrete_pair"] = map[string]any{"clause": clause.Src, "verdict": r.Status}
+	if r.Status == "sat" {
+		// with everything fixed to constants "sat" means the clause is false for this input/output pair
+		return true, fmt.Sprintf("real %s(%s) returned %v, which violates: %s", fn.Name(), strings.Join(args, ", "), outs, clause.Src)
+	}
+	return false, "replay: the real code satisfies the clause on the model's inputs (the model did not reproduce)"
+}
+
+func fx0name(fn *ssa.Function, c *Clause) string {
+	return shortFn(fn.String()) + "/post[" + strings.Trim(c.Tag(), "[]") + "]"
 }
